@@ -1,7 +1,7 @@
 CONSTANTS
   Vals = {0, 1, 2, 3}
   MaxNow = 3
-  GE = TRUE
+  GE = FALSE
 INIT SInit
 NEXT SNext
 CONSTRAINT SConstraint
